@@ -295,6 +295,11 @@ def run(pid, tier="quick", jobs=None, keep=False, only=None):
         except HarnessError as e:
             problems.append(f"native {name}: {e}")
             res = {"error": str(e)}
+        except Exception as e:  # noqa: BLE001  a crash of the native part is a harness error, never a pass
+            import traceback
+
+            res = {"error": f"crashed: {type(e).__name__}: {e}"}
+            traceback.print_exc()
         native_results.append({"name": name, "seconds": round(time.time() - t0, 2), "result": res})
 
     conds = [c for c in spec.conds if only is None or c.fn in only]
